@@ -20,6 +20,8 @@ for d in sorted(glob.glob(f"{root}/seeded/*/meta.json")):
     n = os.path.basename(os.path.dirname(d))
     strengthening = m.get("strengthening") or "none"
     first = "yes" if strengthening.startswith("none") else "no"
+    if m.get("status") == "neutralised":
+        strengthening += " — NO LONGER A VIOLATION: " + m.get("neutralised_by", "")[:160]
     st.append(f"| {n} | {m['property']} | {m['summary'][:170].replace('|', '/')} | {first} | "
               f"{'; '.join(m.get('caught_by', []))[:170].replace('|', '/')} | {strengthening[:200].replace('|', '/')} |")
 p = f"{root}/DESIGN.md"
